@@ -116,9 +116,9 @@ def build_lean():
     _lean_built = True
 
 
-def _prune_cache(prefix=None, keep=24, window_s=30 * 60):
+def _prune_cache(prefix=None, keep=16, window_s=20 * 60):
     """Bounds the harness cache (disk is limited): the newest `keep` binaries stay; an older one is removed
-    unless it was used within the last half hour (every cache hit touches the file, and no single check
+    unless it was used within the last twenty minutes (every cache hit touches the file, and no single check
     runs that long) — a concurrent check against another tree may still be executing it.  Stale lock and
     temporary files go with their binaries."""
     if not os.path.isdir(CACHE):
